@@ -194,16 +194,47 @@ def rhs_for(rng, kind, ext, fixed=None):
     if kind == 'addslice': return ('addslice',) + other_slice(rng, ext, fixed)
     return (kind,)
 
-def op_groups(ty, ops, m):
-    """split the operators so that a UF case stays below ~150 uninterpreted float operations."""
-    if ty.kind == 'int': return [ops]
-    per = max(1, 140 // max(m, 1))
-    arith = [o for o in ops if o != '=']
-    groups = [arith[i:i + per] for i in range(0, len(arith), per)]
-    if '=' in ops:
-        if groups: groups[0] = ['='] + groups[0]
-        else: groups = [['=']]
-    return groups
+UF_BUDGET = 28      # uninterpreted float applications per case on the code side (the clause side doubles it; Ackermann is quadratic)
+UF_MAX_TARGET = 36  # a single float arithmetic write with more applications than this is not decidable in the time budget: left out
+MOVE_KINDS = ('scalar', 'lit', 'tensor', 'slice', 'neg', 'trans')
+
+def target_cost(ty, shape, w):
+    """float operations one write executes (selected elements x operations per element)."""
+    if ty.kind != 'float': return 0
+    sels, ext = slice_sel(shape, w.axes)
+    m = prod(ext)
+    per = (0 if w.op == '=' else 1) + (1 if w.rhs[0] in ('add', 'addslice', 'transadd') else 0)
+    return m * per
+
+def split_targets(ty, targets):
+    """float: pure data movement (`=` of a movement right-hand side) stays SYM in its own entry; arithmetic targets are packed
+    into UF entries below the budget.  int: one entry."""
+    if ty.kind != 'float': return [targets]
+    sym = [t for t in targets if all(not w.is_float_arith(ty) for w in t[2])]
+    uf = [t for t in targets if t not in sym and sum(target_cost(ty, t[0], w) for w in t[2]) <= UF_MAX_TARGET]
+    out = [sym] if sym else []
+    cur = []; cost = 0
+    for t in uf:
+        c = sum(target_cost(ty, t[0], w) for w in t[2])
+        if cur and cost + c > UF_BUDGET:
+            out.append(cur); cur = []; cost = 0
+        cur.append(t); cost += c
+    if cur: out.append(cur)
+    return out
+
+def pick_ops(ty, ops, k, nkeep):
+    """float: `=` plus nkeep of the compound operators (rotating with k); nkeep None or int type: all operators."""
+    if ty.kind == 'int' or nkeep is None: return ops
+    comp = [o for o in ops if o != '=']
+    keep = [comp[(k + q) % len(comp)] for q in range(min(nkeep, len(comp)))] if comp else []
+    return [o for o in ops if o == '=' or o in keep]
+
+RHS_ALL = ['scalar', 'lit', 'tensor', 'slice', 'neg', 'add', 'addslice', 'trans', 'transadd']
+
+def rhs_ok(ty, rk):
+    """integer unary minus is a known defect of the element-wise layer (property C02: the SIMD negate flips the sign bit);
+    it is not a view matter, so int destinations do not use it as a right-hand side."""
+    return not (ty.kind == 'int' and rk == 'neg')
 
 def accepted(dst, axes, rk):
     """API acceptance (front-end fact): a *dynamic* slice of a rank-1/rank-2 TensorMap only accepts scalar right-hand sides
@@ -212,26 +243,23 @@ def accepted(dst, axes, rk):
         return rk in ('scalar', 'lit')
     return True
 
-def dest_cases(fam, ty, shape, axes, dst, cfg, rng, rhs_kinds, fixed=None, ident=None):
-    """for one destination slice: one entry per right-hand-side kind holding all operators (one inout buffer per operator)."""
+def dest_cases(fam, ty, shape, axes, dst, cfg, rng, rhs_kinds, fixed=None, ident=None, nkeep=None, rot=0):
+    """for one destination slice: per right-hand-side kind, all operators (one sub-range of the inout buffer per operator)."""
     out = []
     sels, ext = slice_sel(shape, axes)
     assert sels is not None, (shape, slice_cpp(axes))
-    m = prod(ext)
-    for rk in rhs_kinds:
+    for ri, rk in enumerate(rhs_kinds):
         if rk in ('trans', 'transadd') and len(ext) != 2: continue
-        if not accepted(dst, axes, rk): continue
-        ops = ops_for(ty, rk)
-        extra = 2 if rk in ('add', 'addslice', 'transadd') else 1
-        for gi, grp in enumerate(op_groups(ty, ops, m * extra)):
-            targets = [(shape, dst, [Write(axes, op, rhs_for(rng, rk, ext, fixed))]) for op in grp]
-            out.append(write_case(fam, ty, targets, cfg, '%s.%s%s' % (ident or slice_tag(axes), rk, ('.g%d' % gi) if gi else '')))
+        if not accepted(dst, axes, rk) or not rhs_ok(ty, rk): continue
+        ops = pick_ops(ty, ops_for(ty, rk), rot + ri, nkeep)
+        targets = [(shape, dst, [Write(axes, op, rhs_for(rng, rk, ext, fixed))]) for op in ops]
+        for gi, grp in enumerate(split_targets(ty, targets)):
+            out.append(write_case(fam, ty, grp, cfg, '%s.%s%s' % (ident or slice_tag(axes), rk, ('.g%d' % gi) if gi else '')))
     return out
 
-RHS_ALL = ['scalar', 'lit', 'tensor', 'slice', 'neg', 'add', 'addslice', 'trans', 'transadd']
 RHS_1D = ['scalar', 'tensor', 'slice', 'add', 'lit', 'neg', 'addslice']
 
-def multi_dest_cases(fam, ty, shape, dests, dst, cfg, rng, rhs_cycle, per, ident, fixed=None):
+def multi_dest_cases(fam, ty, shape, dests, dst, cfg, rng, rhs_cycle, per, ident, fixed=None, nkeep=None):
     """several destination slices of the same shape per entry, every operator on each (own sub-range of the inout buffer);
     the right-hand-side kind rotates over the destinations."""
     out = []
@@ -241,16 +269,12 @@ def multi_dest_cases(fam, ty, shape, dests, dst, cfg, rng, rhs_cycle, per, ident
         for di, axes in enumerate(grp):
             sels, ext = slice_sel(shape, axes)
             assert sels is not None, (shape, slice_cpp(axes))
-            cands = [rk for rk in rhs_cycle if accepted(dst, axes, rk) and not (rk in ('trans', 'transadd') and len(ext) != 2)]
+            cands = [rk for rk in rhs_cycle if accepted(dst, axes, rk) and rhs_ok(ty, rk) and not (rk in ('trans', 'transadd') and len(ext) != 2)]
             rk = cands[(gi * per + di) % len(cands)]
-            for op in ops_for(ty, rk):
+            for op in pick_ops(ty, ops_for(ty, rk), gi * per + di, nkeep):
                 targets.append((shape, dst, [Write(axes, op, rhs_for(rng, rk, ext, fixed))]))
-        # UF cases: keep the number of uninterpreted applications small
-        if ty.kind == 'float':
-            for ci, ch in enumerate(chunked(targets, 8)):
-                out.append(write_case(fam, ty, ch, cfg, '%s%d.%d' % (ident, gi, ci)))
-        else:
-            out.append(write_case(fam, ty, targets, cfg, '%s%d' % (ident, gi)))
+        for ci, ch in enumerate(split_targets(ty, targets)):
+            out.append(write_case(fam, ty, ch, cfg, '%s%d%s' % (ident, gi, ('.%d' % ci) if ci else '')))
     return out
 
 def random_write(rng, ty, shape, dst, kinds, allow_div=True):
@@ -260,12 +284,13 @@ def random_write(rng, ty, shape, dst, kinds, allow_div=True):
         sels, ext = slice_sel(shape, axes)
         if sels is None: continue
         break
-    cands = [rk for rk in RHS_ALL if accepted(dst, axes, rk) and not (rk in ('trans', 'transadd') and len(ext) != 2)]
+    cands = [rk for rk in RHS_ALL if accepted(dst, axes, rk) and rhs_ok(ty, rk) and not (rk in ('trans', 'transadd') and len(ext) != 2)]
     rk = rng.choice(cands)
     ops = ops_for(ty, rk)
     if not allow_div: ops = [o for o in ops if not (o == '/=' and rk == 'scalar')]
-    fixed = all(a.is_fixed() for a in axes)
-    return Write(axes, rng.choice(ops), rhs_for(rng, rk, ext, None))
+    w = Write(axes, rng.choice(ops), rhs_for(rng, rk, ext, None))
+    if target_cost(ty, shape, w) > UF_MAX_TARGET: return random_write(rng, ty, shape, dst, kinds, allow_div)
+    return w
 
 def cases(tier, seed):
     rng = random.Random(seed)
@@ -278,96 +303,107 @@ def cases(tier, seed):
         cfg = Cfg(isa, std)
         cfv = Cfg(isa, std, macros=(VEA,))
         main = std == 'c++14'
+        dense = thorough and main                      # thorough, C++14: the dense box; thorough, C++17: the quick box again
+        wide = dense and isa in ('sse2', 'avx2')       # the two ISAs whose widths (2,4,8) are straddled by small extents: densest
+        nkeep = 1 if not wide else 2
         # ---------------- scalar element assignment with symbolic indices ----------------
         for ti, ty in enumerate(TYPES):
-            for si, shape in enumerate([(7,), (3, 5), (2, 3, 4)] + ([(2, 3, 2, 3)] if thorough else [])):
+            for si, shape in enumerate([(7,), (3, 5), (2, 3, 4)] + ([(2, 3, 2, 3)] if dense else [])):
                 for di, dst in enumerate(DST):
                     ops = ['=', '+=', '-='] if ty.kind == 'int' else ['=', '+=', '*=', '/=']
-                    if not thorough: ops = [ops[(si + di + ti + ni + q) % len(ops)] for q in range(2)]
-                    for op in sorted(set(ops)):
-                        if thorough or (si + di + ti) % 2 == ni % 2 or op == '=':
-                            out.append(elem_assign_case(ty, shape, cfg, dst, op))
+                    if not dense:
+                        if (si + di + ti + ni) % 2: continue
+                        ops = [ops[(si + di + ti + ni) % len(ops)]]
+                    for op in ops:
+                        out.append(elem_assign_case(ty, shape, cfg, dst, op))
         # ---------------- rank 1: every (first,last,step) triple as destination ----------------
         for N in range(1, 9):
             for kind in ('seq', 'fseq'):
-                if thorough:
-                    tys = TYPES if (main and N <= 6) else [TYPES[(N + ni) % 3]]
+                if dense:
                     if kind == 'fseq' and N > 6: continue
+                    tys = TYPES if (wide and N <= 6) else [TYPES[(N + ni) % 3]]
                 else:
                     if N > (6 if kind == 'seq' else 4): continue
                     tys = [TYPES[(N + ni + (kind == 'fseq')) % 3]]
                 for ty in tys:
                     ti = TYPES.index(ty)
                     ts = triples(N)
-                    for dst in (DST if (thorough and main) or N == 4 else ['own']):
-                        encs = ENCS if (thorough and main and dst == 'own') else None
+                    for dst in (DST if (dense and N in (4, 6)) or (N == 4 and kind == 'seq') else ['own']):
+                        encs = ENCS if (wide and dst == 'own' and kind == 'seq' and ty is INT) else None
                         dests = []
                         for n, (f, l, st) in enumerate(ts):
                             for enc in (encs or [ENCS[(n + ti + N) % 3]]):
                                 dests.append((ax1(kind, f, l, st, N, enc),))
-                        out += multi_dest_cases('%s1-%s' % (kind, dst), ty, (N,), dests, dst, cfg, rng, RHS_1D, 4 if ty.kind == 'int' else 3, 'x', fixed=None)
+                        out += multi_dest_cases('%s1-%s' % (kind, dst), ty, (N,), dests, dst, cfg, rng, RHS_1D, 5 if kind == 'seq' else 3, 'x', nkeep=1 if not wide else 2)
         for ti, ty in enumerate(TYPES):
             V = vec_elems(isa, ty)
             # ---------------- destinations whose last-axis extent straddles the SIMD width ----------------
-            es = sorted({V - 1, V, V + 1, 2 * V + 1} - {0}) if not thorough else sorted({V - 1, V, V + 1, 2 * V, 2 * V + 1} - {0})
-            sweep = vsweep(V, es=es, ss=(1, 2) if not thorough else (1, 2, 3), fs=(0, 1), both=False, rot=ti)
+            es = sorted({V - 1, V, V + 1, 2 * V + 1} - {0}) if not dense else sorted({V - 1, V, V + 1, 2 * V, 2 * V + 1} - {0})
+            sweep = vsweep(V, es=es, ss=(1, 2) if not dense else (1, 2, 3), fs=(0, 1), both=False, rot=ti)
             for n, (N, e, s, sl) in enumerate(sweep):
                 for ki, kind in enumerate(('seq', 'fseq')):
+                    if not dense and (n + ki + ti + ni) % 2: continue      # the two vocabularies alternate over the sweep
                     fixed = kind == 'fseq'
                     (f, l, enc) = sl[(n + ki) % len(sl)]
                     last_ax = ax1(kind, f, l, s, N, enc)
+                    rot = n + ti + ni
                     # rank 1
-                    for dst in (DST if thorough else [DST[(n + ki + ti) % 2]]):
-                        kinds = RHS_1D if thorough else [RHS_1D[(2 * n + q + ki + ti + ni) % len(RHS_1D)] for q in range(2)]
-                        out += dest_cases('%s1v-%s' % (kind, dst), ty, (N,), (last_ax,), dst, cfg, rng, kinds, ident='e%d.s%d' % (e, s))
-                        if s > 1 and dst == 'own' and e >= V:
-                            out += dest_cases('%s1v-%s' % (kind, dst), ty, (N,), (last_ax,), dst, cfv, rng, kinds[:1] if not thorough else kinds, ident='e%d.s%d' % (e, s))
+                    for dst in (DST if wide else [DST[(n // 2 + ti) % 2]]):
+                        kinds = [RHS_1D[(n + 2 * ti + ni + q) % len(RHS_1D)] for q in range(2 if wide else 1)]
+                        out += dest_cases('%s1v-%s' % (kind, dst), ty, (N,), (last_ax,), dst, cfg, rng, kinds, ident='e%d.s%d' % (e, s), nkeep=nkeep, rot=rot)
+                        if s > 1 and e >= V and (dst == 'own' or not dense):
+                            out += dest_cases('%s1v-own' % kind, ty, (N,), (last_ax,), 'own', cfv, rng, kinds, ident='e%d.s%d' % (e, s), nkeep=nkeep, rot=rot + 1)
                     # rank 2
-                    if e > 17 and not thorough: continue
+                    if e > 17 and not dense: continue
                     lead = lead_axis(fixed, 3, n + ki + ti)
                     axes2 = (lead, last_ax)
-                    for dst in (DST if thorough else [DST[(n + ki + ti + 1) % 2]]):
-                        kinds = RHS_ALL if thorough else [RHS_ALL[(2 * n + q + ki + ti + ni) % len(RHS_ALL)] for q in range(2)]
-                        out += dest_cases('%s2v-%s' % (kind, dst), ty, (3, N), axes2, dst, cfg, rng, kinds, ident='e%d.s%d' % (e, s))
-                        if s > 1 and dst == 'own' and e >= V:
-                            out += dest_cases('%s2v-%s' % (kind, dst), ty, (3, N), axes2, dst, cfv, rng, kinds[:1] if not thorough else kinds, ident='e%d.s%d' % (e, s))
+                    for dst in (DST if wide else [DST[(n // 2 + ti + 1) % 2]]):
+                        kinds = [RHS_ALL[(n + 4 * ti + 2 * ni + 3 * q) % len(RHS_ALL)] for q in range(2 if wide else 1)]
+                        out += dest_cases('%s2v-%s' % (kind, dst), ty, (3, N), axes2, dst, cfg, rng, kinds, ident='e%d.s%d' % (e, s), nkeep=nkeep, rot=rot)
+                        if s > 1 and e >= V and (dst == 'own' or not dense):
+                            out += dest_cases('%s2v-own' % kind, ty, (3, N), axes2, 'own', cfv, rng, kinds, ident='e%d.s%d' % (e, s), nkeep=nkeep, rot=rot + 1)
                     # rank 3 (generic nD views)
-                    if (e in (V, V + 1) and s == 1) or thorough:
+                    if (e in (V, V + 1) and s == 1 and e <= 9) or (dense and e <= 17):
                         axes3 = (lead_axis(fixed, 3, n + ti + 1, allow_int=True), lead_axis(fixed, 3, n + 2 * ki + ni, allow_int=False), last_ax)
                         dst = DST[(n + ki) % 2]
                         kinds = [k for k in RHS_ALL if k not in ('trans', 'transadd')]
-                        kinds = kinds if thorough else [kinds[(n + ki + ti + ni) % len(kinds)]]
-                        out += dest_cases('%sNv-%s' % (kind, dst), ty, (3, 3, N), axes3, dst, cfg, rng, kinds, ident='e%d.s%d' % (e, s))
+                        kinds = [kinds[(n + ki + ti + ni + 2 * q) % len(kinds)] for q in range(2 if wide else 1)]
+                        out += dest_cases('%sNv-%s' % (kind, dst), ty, (3, 3, N), axes3, dst, cfg, rng, kinds, ident='e%d.s%d' % (e, s), nkeep=nkeep, rot=rot)
             # ---------------- rank 2: covering set of (triple x triple) destinations ----------------
             shape = (4, 5)
-            pairs = covering_pairs(shape[0], shape[1], rng)
-            if not thorough and ti != ni % 3: pairs = sample(rng, pairs, 12)
+            allpairs = covering_pairs(shape[0], shape[1], rng)
             for ki, kind in enumerate(('seq', 'fseq')):
-                if kind == 'fseq' and not thorough: pairs = sample(rng, pairs, 12)
+                if dense:
+                    pairs = allpairs if (wide or ti == ni % 3) else sample(rng, allpairs, 18)
+                    if kind == 'fseq': pairs = sample(rng, pairs, 24)
+                else:
+                    pairs = allpairs if (kind == 'seq' and ti == ni % 3) else sample(rng, allpairs, 9 if kind == 'seq' else 6)
                 for dst in DST:
-                    if dst == 'map' and not thorough: sel = sample(rng, pairs, 6)
-                    else: sel = pairs
+                    sel = pairs if dst == 'own' else sample(rng, pairs, 4 if not dense else 12)
                     dests = []
                     for n, (t0, t1) in enumerate(sel):
                         e0, e1 = ENC2[(n + ti) % len(ENC2)]
                         dests.append((ax1(kind, t0[0], t0[1], t0[2], shape[0], e0), ax1(kind, t1[0], t1[1], t1[2], shape[1], e1)))
-                    out += multi_dest_cases('%s2-%s' % (kind, dst), ty, shape, dests, dst, cfg, rng, RHS_ALL, 3 if ty.kind == 'int' else 2, 'c')
+                    out += multi_dest_cases('%s2-%s' % (kind, dst), ty, shape, dests, dst, cfg, rng, RHS_ALL, 3, 'c', nkeep=1 if not wide else 2)
                     if dst == 'own':
-                        strided = [d for d in dests if d[1].st > 1][:6 if not thorough else 30]
-                        out += multi_dest_cases('%s2-%s' % (kind, dst), ty, shape, strided, dst, cfv, rng, RHS_ALL, 3 if ty.kind == 'int' else 2, 'c')
+                        strided = [d for d in dests if d[1].st > 1][:3 if not dense else 12]
+                        out += multi_dest_cases('%s2-%s' % (kind, dst), ty, shape, strided, dst, cfv, rng, RHS_ALL, 3, 'c', nkeep=1 if not wide else 2)
             # ---------------- mixed argument kinds (rank 2 overloads, rank 3/4 generic views) ----------------
-            for shape in ([(4, 5), (2, 3, 4)] if not thorough else [(4, 5), (2, 3, 4), (2, 2, 3, 3)]):
+            for shape in ([(4, 5), (2, 3, 4)] if not dense else [(4, 5), (2, 3, 4), (2, 2, 3, 3)]):
                 for dst in DST:
-                    k = 4 if not thorough else 16
+                    k = 2 if not dense else 8
                     for q in range(k):
                         w = random_write(rng, ty, shape, dst, ['seq', 'fseq', 'all', 'int', 'last', 'first', 'fix', 'fixlast'])
                         out.append(write_case('mixed%d-%s' % (len(shape), dst), ty, [(shape, dst, [w])], cfg, 'm%d.%s' % (q, w.tag())))
             # ---------------- short histories: 2-3 writes to the same tensor in one entry ----------------
-            for shape in ([(9,), (4, 5), (2, 3, 4)]):
-                for dst in DST:
-                    for q in range(2 if not thorough else 8):
+            for hi, shape in enumerate([(9,), (4, 5), (2, 3, 4)]):
+                for di, dst in enumerate(DST):
+                    if not dense and (hi + di + ti + ni) % 2: continue
+                    for q in range(2 if not dense else 6):
                         nw = 2 + (q + ti) % 2
-                        ws = [random_write(rng, ty, shape, dst, ['seq', 'fseq', 'all'] if len(shape) < 3 else ['seq', 'fseq', 'all', 'int', 'fix'], allow_div=False) for _ in range(nw)]
+                        while True:
+                            ws = [random_write(rng, ty, shape, dst, ['seq', 'fseq', 'all'] if len(shape) < 3 else ['seq', 'fseq', 'all', 'int', 'fix'], allow_div=False) for _ in range(nw)]
+                            if sum(target_cost(ty, shape, w) for w in ws) <= UF_MAX_TARGET: break
                         out.append(write_case('history%d-%s' % (len(shape), dst), ty, [(shape, dst, ws)], cfg, 'h%d.%s' % (q, '+'.join(OPNAME[w.op] + '.' + w.rhs[0] for w in ws))))
     seen = set(); res = []
     for c in out:
